@@ -3,52 +3,52 @@
 import json
 P = {
  "C01": ("4 C01", "generated-input search (complete builtin/operator matrices + proptest programs + libFuzzer) under catch_unwind; oracle: returns without unwinding",
-         "Every case runs under catch_unwind with a recording hook in two build profiles (overflow checks on / off). The builtin x argument-shape matrix (arity 0..3 over the edge pool) and the operator x pool^2 matrix are complete; programs (rendered ASTs, token soups, raw Unicode, planted defects, deep nesting to 4096 chars) are sampled through all 48 entry points, four context kinds, iterators and formatters; the thorough tier adds coverage-guided libFuzzer campaigns. Exploration: absence of panics is shown only for what was generated.",
+         "Every case runs under catch_unwind with a recording hook in two build profiles (overflow checks on / off). The builtin x argument-shape matrix (arity 0..3 over the edge pool) and the operator x pool^2 matrix are complete; programs (rendered ASTs, token soups, raw Unicode, planted defects, deep nesting to 4096 chars) are sampled through all 48 entry points, four context kinds, iterators and formatters; the thorough tier adds coverage-guided libFuzzer campaigns. Exploration: absence of panics is shown only for what was generated. Scale families (DESIGN §10.16): the same per-case check on programs, operands, literals, separators, histories and contexts of sizes 1..400 clustered around typical capacities (8, 16, 32, 64, 128, 256).",
          "256 MiB worker stacks (stack exhaustion is outside the property, D12); user functions of generated contexts never panic; {:#?} only for trees of depth <= 64."),
  "C02": ("4 C02", "exhaustive small-scope enumeration + proptest round trip; libFuzzer in thorough; oracle: independent precedence-climbing reference parser (AST -> render -> build -> normalise = AST)",
-         "Complete operator matrix (17^3 operator triples x 3^4 prefix choices, pairs x 8^3 operand forms, 9 assignment operators x 14^2), every token sequence up to length 7 (quick) / 8 (thorough) over a representative alphabet, random ASTs rendered with minimal and redundant parentheses and without spaces (D6 words as opaque operands), and long spines up to 60 operators; the built tree must equal the reference tree. Complete within the stated bounds, sampled beyond.",
+         "Complete operator matrix (17^3 operator triples x 3^4 prefix choices, pairs x 8^3 operand forms, 9 assignment operators x 14^2), every token sequence up to length 7 (quick) / 8 (thorough) over a representative alphabet, random ASTs rendered with minimal and redundant parentheses and without spaces (D6 words as opaque operands), and long spines up to 60 operators; the built tree must equal the reference tree. Complete within the stated bounds, sampled beyond. Scale families (DESIGN §10.16): the same per-case check on programs, operands, literals, separators, histories and contexts of sizes 1..400 clustered around typical capacities (8, 16, 32, 64, 128, 256).",
          "The reference grammar is the documented precedence table; D1-D4 regions (assignment to non-identifiers, adjacent assignment operators, x ^ -y ^ z, ! after an operand) are counted but not asserted."),
  "C03": ("4 C03", "complete operator x operand-pool^2 matrix + boundary-biased proptest pairs; oracle: independent i128 / f64 reference table",
-         "All 14 binary and 2 prefix operators over every ordered pair of the 89-value edge pool (all six types), operands bound as variables and written as literals, in both build profiles; plus random pairs biased to overflow boundaries. Value bit-exact or error of the same class.",
+         "All 14 binary and 2 prefix operators over every ordered pair of the 89-value edge pool (all six types), operands bound as variables and written as literals, in both build profiles; plus random pairs biased to overflow boundaries. Value bit-exact or error of the same class. Scale families (DESIGN §10.16): the same per-case check on programs, operands, literals, separators, histories and contexts of sizes 1..400 clustered around typical capacities (8, 16, 32, 64, 128, 256).",
          "std f64 arithmetic and powf are the IEEE reference; D7 (mixed comparisons after conversion to double), D8 (MIN % -1 may be 0 or an arithmetic error)."),
  "C04": ("4 C04", "exhaustive stateful enumeration (all abstract states x all operations) + proptest random histories; oracle: map model compared after every step",
-         "All 784 abstract states of a finite value/name domain (13 values incl. both zeros and tuples of different element types), each reached by a clean and a dirty (other types, clone, clear) history, x every operation (set_value, 9 assignment operators with literal and variable right-hand sides, reads, clears, set_function, toggle, clone-and-continue); return values and complete observable state equal the model after every step. Random histories up to 60 steps over a larger domain.",
+         "All 784 abstract states of a finite value/name domain (13 values incl. both zeros and tuples of different element types), each reached by a clean and a dirty (other types, clone, clear) history, x every operation (set_value, 9 assignment operators with literal and variable right-hand sides, reads, clears, set_function, toggle, clone-and-continue); return values and complete observable state equal the model after every step. Random histories up to 60 steps over a larger domain. Scale families (DESIGN §10.16): the same per-case check on programs, operands, literals, separators, histories and contexts of sizes 1..400 clustered around typical capacities (8, 16, 32, 64, 128, 256).",
          "Model = BTreeMap with type tags; exact ExpectedT{actual} on type clashes."),
  "C05": ("4 C05", "exhaustive token-sequence enumeration + proptest nested sequences; libFuzzer in thorough; oracle: reference chain-of-tuples parser and reference interpreter (value + effects)",
-         "Every sequence up to length 7 (quick) / 9 (thorough) over `1 x = , ; ( )` and up to 5 / 6 over the 16-symbol base alphabet; well-formed ones must build into the reference tree and evaluate to the reference value and final variables (tree level, and through the string-level mutable and read-only entry points); random nested sequences with empty elements.",
+         "Every sequence up to length 7 (quick) / 9 (thorough) over `1 x = , ; ( )` and up to 5 / 6 over the 16-symbol base alphabet; well-formed ones must build into the reference tree and evaluate to the reference value and final variables (tree level, and through the string-level mutable and read-only entry points); random nested sequences with empty elements. Scale families (DESIGN §10.16): the same per-case check on programs, operands, literals, separators, histories and contexts of sizes 1..400 clustered around typical capacities (8, 16, 32, 64, 128, 256).",
          "An absent element is the empty value; D1-D4 unclaimed."),
  "C06": ("4 C06", "proptest round trips (eval(quote(t)) = t, decimal/hex = n, renderings of x = x) + differential against std parse and the reference tokenizer",
-         "Arbitrary Unicode strings with planted illegal escapes and removed quotes, integers in 7 renderings, floats in up to 11 renderings each embedded 10 ways between tokens without spaces, float texts from the grammar, identifier and number look-alike words.",
+         "Arbitrary Unicode strings with planted illegal escapes and removed quotes, integers in 7 renderings, floats in up to 11 renderings each embedded 10 ways between tokens without spaces, float texts from the grammar, identifier and number look-alike words. Scale families (DESIGN §10.16): the same per-case check on programs, operands, literals, separators, histories and contexts of sizes 1..400 clustered around typical capacities (8, 16, 32, 64, 128, 256).",
          "std's f64 parse defines 'nearest double'; D6 words (inf/nan, out-of-range integers) not asserted."),
  "C07": ("4 C07", "metamorphic proptest (two independent separator assignments + canonical rendering) with a complete token-class-pair x separator table; libFuzzer in thorough",
-         "Token sequences with two random separator assignments per gap (25 whitespace chars, block and line comments with arbitrary text) must build equal trees or fail alike; complete table of class-representative pairs x 30 separators x 2 contexts; all sequences up to length 4 tight vs commented; unterminated block comments rejected. Admissibility asserted with the reference tokenizer.",
+         "Token sequences with two random separator assignments per gap (25 whitespace chars, block and line comments with arbitrary text) must build equal trees or fail alike; complete table of class-representative pairs x 30 separators x 2 contexts; all sequences up to length 4 tight vs commented; unterminated block comments rejected. Admissibility asserted with the reference tokenizer. Scale families (DESIGN §10.16): the same per-case check on programs, operands, literals, separators, histories and contexts of sizes 1..400 clustered around typical capacities (8, 16, 32, 64, 128, 256).",
          "D10: lone & and | are not tokens."),
  "C08": ("4 C08", "proptest programs with recording / failing user functions; libFuzzer in thorough; oracle: reference interpreter triple (result, final context, ordered call log)",
-         "Random effectful programs (assignments in operand positions, recording and failing functions, unknown names, k/0 with distinct k, eager if, no short-circuit) over varied contexts; result (exact names, messages and failing operands), final variables and call log with arguments must equal the reference.",
+         "Random effectful programs (assignments in operand positions, recording and failing functions, unknown names, k/0 with distinct k, eager if, no short-circuit) over varied contexts; result (exact names, messages and failing operands), final variables and call log with arguments must equal the reference. Scale families (DESIGN §10.16): the same per-case check on programs, operands, literals, separators, histories and contexts of sizes 1..400 clustered around typical capacities (8, 16, 32, 64, 128, 256).",
          "User functions deterministic; their only effect is the harness-owned log."),
  "C09": ("4 C09", "complete configuration matrix enumeration + proptest over random programs whose names live in both namespaces; oracle: reference resolution rule / reference interpreter with recording functions",
-         "54 names x 130 context configurations (switch, user function recording or itself failing with FunctionIdentifierNotFound, variable, clone / clone_from / clear_functions / clear / toggled twice / clearing while another copy is alive, both empty contexts) x 56 call and variable forms = 393,120 evaluations, all enumerated; callee, argument shape and error must match. Then random programs (nested and juxtaposed calls, assignments to variables named like functions, tuples, chains) over 10 shared names in random HashMapContexts (300 k quick / 6 M thorough), compared on result, call log and final variables.",
+         "54 names x 130 context configurations (switch, user function recording or itself failing with FunctionIdentifierNotFound, variable, clone / clone_from / clear_functions / clear / toggled twice / clearing while another copy is alive, both empty contexts) x 56 call and variable forms = 393,120 evaluations, all enumerated; callee, argument shape and error must match. Then random programs (nested and juxtaposed calls, assignments to variables named like functions, tuples, chains) over 10 shared names in random HashMapContexts (300 k quick / 6 M thorough), compared on result, call log and final variables. Scale families (DESIGN §10.16): the same per-case check on programs, operands, literals, separators, histories and contexts of sizes 1..400 clustered around typical capacities (8, 16, 32, 64, 128, 256).",
          "Builtin results are those of the C10 reference."),
  "C10": ("4 C10", "complete builtin x argument-shape matrix + per-family proptest; oracle: per-builtin reference functions (bit-exact / error / validity predicate for min,max) and len/substring laws",
-         "49 builtins x 23,500 argument shapes (arity 0..3) in both build profiles, random arguments near function-specific boundaries, and (string, a, b) triples for the len/substring consistency laws.",
+         "49 builtins x 23,500 argument shapes (arity 0..3) in both build profiles, random arguments near function-specific boundaries, and (string, a, b) triples for the len/substring consistency laws. Scale families (DESIGN §10.16): the same per-case check on programs, operands, literals, separators, histories and contexts of sizes 1..400 clustered around typical capacities (8, 16, 32, 64, 128, 256).",
          "std f64 functions are the specification of the math builtins; D11 regions not asserted."),
  "C11": ("4 C11", "differential proptest (immutable vs mutable evaluation on clones) + reference projection for programs with assignments; libFuzzer in thorough",
-         "Programs with and without assignments x context recipes: without assignment operators the two evaluators must agree exactly (results, calls, contexts); with assignments the immutable result is the reference projection; contexts unchanged after immutable evaluation; storage-less contexts reject every assignment.",
+         "Programs with and without assignments x context recipes: without assignment operators the two evaluators must agree exactly (results, calls, contexts); with assignments the immutable result is the reference projection; contexts unchanged after immutable evaluation; storage-less contexts reject every assignment. Scale families (DESIGN §10.16): the same per-case check on programs, operands, literals, separators, histories and contexts of sizes 1..400 clustered around typical capacities (8, 16, 32, 64, 128, 256).",
          "D9: ContextNotMutable when an assignment node is reached."),
  "C12": ("4 C12", "differential proptest over all 48 entry points against the projection of the untyped result; libFuzzer in thorough",
-         "Strings of every family x context recipes: each typed / precompiled / context-free entry point equals the projection of the untyped string-level result, contexts after _mut variants agree, immutable variants do not mutate, build errors are returned by every entry point.",
+         "Strings of every family x context recipes: each typed / precompiled / context-free entry point equals the projection of the untyped string-level result, contexts after _mut variants agree, immutable variants do not mutate, build errors are returned by every entry point. Scale families (DESIGN §10.16): the same per-case check on programs, operands, literals, separators, histories and contexts of sizes 1..400 clustered around typical capacities (8, 16, 32, 64, 128, 256).",
          "The untyped string-level entry points are the reference points (their relation to the reference interpreter is C08/C11)."),
  "C13": ("4 C13", "exhaustive token-sequence enumeration + planted-defect proptest; libFuzzer in thorough; oracle: independent local recogniser of ill-formedness (no tree built)",
-         "All 25.6 M sequences up to length 6 (quick) / 7 (thorough) over the base alphabet plus `true`, and planted defects in rendered and type-directed programs: unbalanced -> build error; balanced -> never an unmatched-brace error; missing operand / juxtaposition -> build error or wrong-arity node and never Ok in a generous context.",
+         "All 25.6 M sequences up to length 6 (quick) / 7 (thorough) over the base alphabet plus `true`, and planted defects in rendered and type-directed programs: unbalanced -> build error; balanced -> never an unmatched-brace error; missing operand / juxtaposition -> build error or wrong-arity node and never Ok in a generous context. Scale families (DESIGN §10.16): the same per-case check on programs, operands, literals, separators, histories and contexts of sizes 1..400 clustered around typical capacities (8, 16, 32, 64, 128, 256).",
          "D4 unclaimed."),
  "C14": ("4 C14", "proptest over well-formed ASTs; libFuzzer over token soups in thorough; oracle: occurrence list of the generating AST / reference parse, rename/eval commutation",
-         "The ten iterators against the occurrence list, overwrite-through-mutable-iterator exactness, unknown-identifier errors listed, injective renaming commutes with evaluation (result, calls, final context).",
+         "The ten iterators against the occurrence list, overwrite-through-mutable-iterator exactness, unknown-identifier errors listed, injective renaming commutes with evaluation (result, calls, final context). Scale families (DESIGN §10.16): the same per-case check on programs, operands, literals, separators, histories and contexts of sizes 1..400 clustered around typical capacities (8, 16, 32, 64, 128, 256).",
          "The occurrence list is that of the reference parse of the source; a tree whose shape differs from it (C02/C05's business) is still held to the source's identifiers."),
  "C15": ("4 C15", "generated read-only programs evaluated concurrently (2..16 threads) vs sequential oracle; Send + Sync decided by the check's own need to type-check",
          "Sampled schedules only: the harness does not own the scheduler. The compile-time half (eight assert_send_sync lines plus code that really shares and moves the types) is decisive; the dynamic half samples staggered concurrent evaluation (incl. a contention batch: every builtin with 12 different arguments from staggered threads) of shared trees and contexts.",
          "No interleaving enumeration; loom/shuttle not applicable (no primitives to instrument)."),
  "C16": ("4 C16", "proptest round trips through serde's &str / borrowed-str deserializers, an exact in-memory serde data-model format, RON (vendored ron 0.8.1, the format of evalexpr's own serde tests) and serde_json (string and reader)",
-         "Node deserialisation equals build_operator_tree (tree or message) for generated strings; generated contexts round-trip with identical variables (bit-exact, NaN<->NaN), switch, and no functions.",
+         "Node deserialisation equals build_operator_tree (tree or message) for generated strings; generated contexts round-trip with identical variables (bit-exact, NaN<->NaN), switch, and no functions. Scale families (DESIGN §10.16): the same per-case check on programs, operands, literals, separators, histories and contexts of sizes 1..400 clustered around typical capacities (8, 16, 32, 64, 128, 256).",
          "ron 0.8.1 and base64 0.21.7 are vendored under harness_serde/vendor (this toolchain's registry cache has neither); RON and JSON used only for finite floats."),
 }
 checks=[]
